@@ -249,7 +249,8 @@ func equals(t types.Type, x, y value) bool {
 	// Since map, func and slice don't support comparison, this
 	// case is only reachable if one of x or y is literally nil
 	// (handled in eqnil) or via interface{} values.
-	panic(fmt.Sprintf("comparing uncomparable type %s", t))
+	// Go raises a run-time panic here (e.g. interface values holding two slices)
+	panic(symRuntimeError(fmt.Sprintf("comparing uncomparable type %s", t)))
 }
 
 // Returns an integer hash of x such that equals(x, y) => hash(x) == hash(y).
